@@ -328,6 +328,31 @@ func genC20(e *emitter, tier string, seed uint64) {
 			}
 		}
 	}
+	// the ordinal itself carries a large inscription (push-opcode boundaries 255/256, 65535/65536): the seller's input
+	// must still verify when the interpreter rebuilds the script code
+	for _, size := range []int{255, 256, 65535, 65536, 70000} {
+		for _, variant := range []string{"1", "2"} {
+			seller, buyer := genKey(r), genKey(r)
+			itx := bt.NewTx()
+			_ = itx.Inscribe(&bscript.InscriptionArgs{LockingScriptPrefix: scr(p2pkhOf(seller)), ContentType: "application/octet-stream", Data: r.bytes(size)})
+			ou := mkU(seller, 1, *itx.Outputs[0].LockingScript)
+			price := uint64(1000 + r.n(5000))
+			us := []ordUTXO{mkU(buyer, price+2000, p2pkhOf(buyer)), mkU(buyer, 5000000, p2pkhOf(buyer)), mkU(buyer, 900, p2pkhOf(buyer))}
+			if variant == "2" {
+				us = []ordUTXO{mkU(buyer, 600, p2pkhOf(buyer)), mkU(buyer, 400, p2pkhOf(buyer)), mkU(buyer, price+2000, p2pkhOf(buyer)), mkU(buyer, 5000000, p2pkhOf(buyer))}
+			}
+			var ds []string
+			for _, u := range us {
+				ds = append(ds, descOrdUTXO(u))
+			}
+			res := e.run("C20.list", variant, "500/1000,1/4", descOrdUTXO(ou), fmt.Sprintf("%d:%s", price, hexE(p2pkhOf(seller))),
+				strings.Join(ds, "|"), hexE(p2pkhOf(buyer)), hexE(p2pkhOf(buyer)), hexE(p2pkhOf(genKey(r))))
+			e.note("flow.big-inscription.list." + strings.Fields(res)[0])
+			res = e.run("C20.bid", variant, "500/1000,1/4", descOrdUTXO(ou), fmt.Sprint(price), strings.Join(ds, "|"),
+				hexE(p2pkhOf(buyer)), hexE(p2pkhOf(buyer)), hexE(p2pkhOf(genKey(r))), hexE(p2pkhOf(seller)), ordPlaceholderHex, hexE(funnyScript()))
+			e.note("flow.big-inscription.bid." + strings.Fields(res)[0])
+		}
+	}
 	// tight funding: what is left for the fee sweeps across the quoted fee, in steps smaller than one unlocking script,
 	// so that "covers the unsigned size but not the signed size" and "covers the fee but not a change output" are hit
 	step := 7
